@@ -198,7 +198,7 @@ def run(ctx):
     for r in results:
         if r["kind"] == "subject":
             r["mism"] = []
-    hists, bad_hists, BAD = S6.judge(ctx, S, results, crashes)
+    hists, bad_hists, BAD = S6.judge(ctx, S, results, crashes, with_final=False)
     phists, nparse = judge_parses(ctx, parses, results, crashes)
     by_entry = {}
     for r in results:
